@@ -376,9 +376,12 @@ CHECKS = {
                 "length; the merge of equal items preserves the item count "
                 "(scan/append/delete protocol) and the instance reaches the "
                 "receiver on every path; the search for a cuttable item "
-                "keeps its finite domains, scans cyclically and is bounded.",
+                "keeps its finite domains, scans cyclically and is bounded; "
+                "the similarity objective pairs every statistic of the "
+                "instance with the same statistic of the template, hence "
+                "is 0 on the template.",
         "design_ref": "DESIGN.md section 4, C17 and 10.2",
-        "note": "Decides D17.1-D17.8. Not decided: lower_bound_bins == "
+        "note": "Decides D17.1-D17.9. Not decided: lower_bound_bins == "
                 "min_bins as a value (needs the validity of the DAMV "
                 "bound), Errors == 0 on the template, termination of phase "
                 "1's search if no item could be cut at all.",
